@@ -178,6 +178,47 @@ def limb_pattern_value(rng, nl, q=None):
     return v
 
 
+def limb_pattern_value_w(rng, bits, W, q):
+    """Value whose W-bit digits (W = 51, 32, 28 ... : the limb width of an alternative backend) are drawn from boundary
+    patterns; the top digit takes whatever bits remain, so that values >= 2^(bits-1) (whose fold back into the low limb can
+    leave that limb one past its nominal width) are included."""
+    mq = (1 << q.bit_length()) - q if q.bit_length() < bits else (1 << bits) - q
+    if mq >= (1 << (W - 1)):
+        mq = 19
+    M = (1 << W) - 1
+    v = 0
+    i = 0
+    mode = rng.randrange(5)
+    while W * i < bits:
+        t = rng.randrange(12)
+        if t < 2:
+            w = M
+        elif t < 4:
+            w = 0
+        elif t < 5:
+            w = M - rng.randrange(4)
+        elif t < 6:
+            w = (M + 1 - mq + rng.randrange(-2, 3)) & M
+        elif t < 7:
+            w = rng.randrange(4)
+        elif t < 8:
+            w = (1 << rng.randrange(W)) - rng.randrange(2)
+        elif t < 9:
+            w = (mq * rng.randrange(1, 4) + rng.randrange(-1, 2)) & M
+        else:
+            w = rng.getrandbits(W)
+        if mode == 0 and rng.randrange(4):
+            w = M
+        elif mode == 1 and rng.randrange(4):
+            w = 0
+        v |= (w & M) << (W * i)
+        i += 1
+    v &= (1 << bits) - 1
+    if rng.randrange(3) == 0:
+        v |= 1 << (bits - 1)
+    return v
+
+
 def anchored_value(rng, q, bits):
     """base +/- delta with base in a list of structurally interesting values."""
     top = 1 << bits
@@ -208,6 +249,9 @@ def anchored_value(rng, q, bits):
 def hostile_raw(rng, f):
     """A raw (64*nl)-bit integer to feed a raw-limb constructor."""
     t = rng.randrange(10)
+    if t < 4 and rng.randrange(4) == 0:
+        W = rng.choice([51, 51, 32] if (f.bits == 256 and f.q.bit_length() == 255) else ([56, 28, 32] if f.bits == 448 else [32, 32, 52]))
+        return limb_pattern_value_w(rng, f.bits, W, f.q)
     if t < 4:
         return limb_pattern_value(rng, f.nl, f.q)
     if t < 8:
